@@ -61,6 +61,7 @@ func (e *Engine) lookup(st *State, x *ssa.Lookup, m Value, k Value, where string
 		if alt.Obj == nil || alt.G.IsFalse() {
 			continue
 		}
+		e.raceRecord(alt, mt, false, where)
 		mc := e.mapContentOf(st, alt.Obj, where)
 		for _, en := range mc.Entries {
 			hit := c.And(alt.G, en.G, e.keyEq(en.K, k))
@@ -86,6 +87,7 @@ func (e *Engine) mapUpdate(st *State, m PtrV, k, v Value, where string) {
 			e.fail(st, alt.G, "nopanic:assignment-to-nil-map", where)
 			continue
 		}
+		e.raceRecord(alt, alt.Obj.Typ, true, where)
 		mc := e.mapContentOf(st, alt.Obj, where)
 		nm := &MapContent{}
 		for _, en := range mc.Entries {
@@ -106,6 +108,7 @@ func (e *Engine) mapDelete(st *State, m PtrV, k Value, where string) {
 		if alt.Obj == nil || alt.G.IsFalse() {
 			continue
 		}
+		e.raceRecord(alt, alt.Obj.Typ, true, where)
 		mc := e.mapContentOf(st, alt.Obj, where)
 		nm := &MapContent{}
 		for _, en := range mc.Entries {
